@@ -666,7 +666,9 @@ func (v Value) convert(t Type) (res Value) {
 }
 
 func (v Value) IsNil() bool {
-	switch v.t {
+	// the element / key / struct-name bits above the base type say what kind of
+	// slice, map or struct this is, not whether it is nil
+	switch v.t.base() {
 	case TypeNil:
 		return true
 	case TypeObject, TypeFunc, TypeSlice, TypeStruct, TypeMap:
